@@ -46,7 +46,7 @@ REQUIRED = ('streets_completed', 'draw_rounds_checked', 'burns_checked',
             'forks')
 
 CUSTOMS = ('kuhn', 'draw5', 'stud5', 'greek', 'courchevel', 'holdem8',
-           'plo8', 'badugi1', 'razzdraw', 'random', 'studdraw')
+           'plo8', 'badugi1', 'razzdraw', 'random', 'studdraw', 'openstud')
 DEALING = ('CardBurning', 'HoleDealing', 'BoardDealing',
            'StandingPatOrDiscarding')
 BETTING = ('Folding', 'CheckingOrCalling', 'BringInPosting',
